@@ -19,15 +19,23 @@ def run_case(case, part):
 
     N = case["N"]
     lls = profile(N, case["rot"])
+    if case.get("flat"):
+        # large-size probe: a nearly flat profile (distinct values, every acceptance ratio far from 0)
+        lls = [-1e-4 * ((i + case["rot"]) % N) for i in range(N)]
     o = dict(case["opts"])
     acc_codes = case["acc"]  # per row id: 'a' accept / 'r' reject (max row always accepted)
+    if acc_codes == "all":
+        acc_codes = "a" * N
+    perm = case.get("perm")
+    if perm == "rotate7":
+        perm = [(7 * i + 3) % N for i in range(N)]  # N not a multiple of 7: a permutation
 
     def plan(k, ids, ll_so_far):
         a = np.array(ll_so_far)
         r = np.exp(a - a.max())
         return [drv.u_for("z" if r[j] == 1.0 else acc_codes[i], r[j]) for j, i in enumerate(ids)]
 
-    run = drv.call_sampler(case["sampler"], N, lls, case["path"], o, plan, perm=case.get("perm"), pool_spec=case.get("pool"),
+    run = drv.call_sampler(case["sampler"], N, lls, case["path"], o, plan, perm=perm, pool_spec=case.get("pool"),
                            with_lnprior=True)
     if run.exc is not None:
         part.record(case, outcome=("exc", type(run.exc).__name__))
@@ -128,6 +136,16 @@ def build_cases(quick):
                                                     opts=dict(return_logprobs=True, max_posterior_samples=mp, n_prior_samples=npri,
                                                               n_linear_samples=nlin, n_batches=nb, randomize_prior_order=perm is not None,
                                                               return_all_logprobs=(nb == 2))))
+    # large-size probes (thresholds inside the samplers: chunked reads, whole-column fast paths): more than 1024 / 2048 surviving rows
+    for N in (1100, 2063):
+        for path in ("obj", "file"):
+            for perm in (None, "rotate7"):
+                for nb in (None, 3):
+                    fil.append(dict(kind="c06", sampler="rejection", N=N, rot=5, acc="all", flat=True, path=path, perm=perm, pool=["serial"],
+                                    opts=dict(return_logprobs=True, n_batches=nb, randomize_prior_order=perm is not None, n_linear_samples=1)))
+        inm.append(dict(kind="c06", sampler="rejection", N=N, rot=5, acc="all", flat=True, path="inmem", opts=dict(return_logprobs=True, n_linear_samples=1)))
+        fil.append(dict(kind="c06", sampler="iterative", N=N, rot=5, acc="all", flat=True, path="file", perm="rotate7", may_raise=True,
+                        opts=dict(return_logprobs=True, n_requested_samples=N - 10, init_batch_size=600, n_linear_samples=1, growth_factor=2, randomize_prior_order=True)))
     return inm, fil
 
 
